@@ -183,6 +183,9 @@ class Stream(ModelMixin["Stream"], Base):
         if blob:
             blob.delete_file(upload_folder)
             blob.delete()
+            # the old row has to be gone before a blob with the same
+            # filename is inserted
+            db.session.flush()
         file_upload.save(abs_filename)
         blob = Blob(
             filename=filename.name,
